@@ -3,13 +3,31 @@
 package validator
 
 import (
+	"fmt"
+
 	"github.com/aml-org/amf-custom-validator/internal/parser/profile"
 	"github.com/aml-org/amf-custom-validator/internal/types"
 	v "github.com/aml-org/amf-custom-validator/internal/zzverif"
 	c "github.com/aml-org/amf-custom-validator/pkg/config"
 )
 
-var verifC06Profiles = []string{
+// verifManyValidations: a profile with n one-constraint validations spread over the three levels
+// (work that an implementation may decide to split up or parallelise).
+func verifManyValidations(n int) string {
+	levels := []string{"violation", "warning", "info"}
+	lists := map[string]string{}
+	defs := ""
+	for k := 0; k < n; k++ {
+		name := fmt.Sprintf("m%d", k)
+		lists[levels[k%3]] += "  - " + name + "\n"
+		defs += fmt.Sprintf("  %s:\n    message: m\n    targetClass: ex.C\n    propertyConstraints:\n      ex.p%d:\n        minCount: 1\n      ex.q%d / ex.r:\n        maxCount: %d\n", name, k, k, k)
+	}
+	return "profile: Many\nprefixes:\n  ex: http://example.org/\nviolation:\n" + lists["violation"] + "warning:\n" + lists["warning"] + "info:\n" + lists["info"] + "validations:\n" + defs
+}
+
+var verifC06Profiles = append(verifC06ProfilesBase, verifManyValidations(12))
+
+var verifC06ProfilesBase = []string{
 	// three quantified constraints under one propertyConstraints: fresh variables are allocated in key order
 	`profile: P1
 prefixes:
